@@ -151,6 +151,11 @@ impl Prop for C18 {
                             ));
                         }
                     }
+                    (_, _) if out.contains("memory allocation of") => {
+                        // the allocator, not a mapping, hit the limit: Rust aborts by design
+                        ev.inconclusive += 1;
+                        *ev.classes.entry("rlimit-heap-allocation-failed(inconclusive)".into()).or_default() += 1;
+                    }
                     (code, _) => {
                         ev.failures.push((
                             Failure {
